@@ -8,7 +8,9 @@ import time
 
 VERIF = os.path.dirname(os.path.dirname(os.path.abspath(__file__)))
 SPEC = os.path.join(VERIF, "spec")
-WORK = os.path.join(VERIF, ".work")
+# scratch / output root: /verif unless VERIF_SCRATCH redirects it (used when seeded changes are evaluated in parallel)
+OUT_ROOT = os.environ.get("VERIF_SCRATCH", VERIF)
+WORK = os.path.join(OUT_ROOT, ".work")
 JAR = "/opt/veriftools/tla/tla2tools.jar:/opt/veriftools/tla/CommunityModules-deps.jar"
 
 
